@@ -104,16 +104,26 @@ def getXSTypeLabelFromNumber(xsTypeNumber: int) -> str:
     2-digit labels are supported when there is only one burnup group.
     """
     try:
-        if xsTypeNumber > ord("Z"):
-            # two digit. Parse
-            return chr(int(str(xsTypeNumber)[:2])) + chr(int(str(xsTypeNumber)[2:]))
-        elif xsTypeNumber < ord("A"):
+        if xsTypeNumber < ord("A"):
             raise ValueError(
                 f"Cannot convert invalid xsTypeNumber `{xsTypeNumber}` to char. "
                 "The number must be >= 65 (corresponding to 'A')."
             )
-        else:
-            return chr(xsTypeNumber)
+        # The number is the concatenation of the character codes of the label. Upper case
+        # letters and a-c have two-digit codes (65-99), d-z have three-digit codes (100-122),
+        # which are the only codes that start with a 1.
+        digits = str(int(xsTypeNumber))
+        label = ""
+        while digits:
+            width = 3 if digits[0] == "1" else 2
+            char = chr(int(digits[:width]))
+            if char not in _ALLOWABLE_XS_TYPE_LIST:
+                raise ValueError(
+                    f"Cannot convert invalid xsTypeNumber `{xsTypeNumber}` to a label."
+                )
+            label += char
+            digits = digits[width:]
+        return label
     except ValueError:
         runLog.error("Error converting {} to label.".format(xsTypeNumber))
         raise
